@@ -20,6 +20,10 @@ type e2eCase struct {
 	Bases []string  `json:"bases"` // Bases[i]: sub-directory of the source root that holds node i's top-level path ("" = root)
 	Pre   []e2eNode `json:"pre"`   // pre-existing destination content
 	Plan  e2ePlan   `json:"plan"`
+	// NamesFromTops: map every source top-level path to the destination entry of the same base
+	// name (clean destination, distinct base names) instead of to the names shown to the user
+	NamesFromTops bool `json:"names_from_tops"`
+	WatchdogMs    int  `json:"watchdog_ms"`
 }
 
 type e2ePlan struct {
@@ -126,6 +130,9 @@ func e2eExec(c *e2eCase, work string, tr *vTrace, logLines bool) (*e2eResult, ma
 	}
 	var stopAt time.Time
 	hooks := &e2eHooks{}
+	if c.WatchdogMs > 0 {
+		hooks.watchdog = time.Duration(c.WatchdogMs) * time.Millisecond
+	}
 	hooks.ready = func(w *e2eWire, client func() *trzszTransfer, server *trzszTransfer, f *TrzszFilter) {
 		st, pa := c.Plan.Stop, c.Plan.Pause
 		if st == nil && pa == nil {
@@ -155,9 +162,18 @@ func e2eExec(c *e2eCase, work string, tr *vTrace, logLines bool) (*e2eResult, ma
 	}
 	tr.Emit(reset, nil)
 	res := e2eRun(o, w, hooks)
+	if e2eProbeSink != nil {
+		e2eProbeSink(w)
+	}
 
 	// observable projection
 	names := res.Shown
+	if c.NamesFromTops {
+		names = nil
+		for _, t := range tops {
+			names = append(names, filepath.Base(t))
+		}
+	}
 	entries, allSame, extra := e2eCompare(tops, names, dst, pre)
 	same := make([]bool, 0, len(entries))
 	nsame := 0
@@ -269,3 +285,26 @@ func e2eOracleFiles(tops []string, o e2eOpts, proto int) []map[string]any {
 	}
 	return res
 }
+
+func e2eErr(format string, a ...any) error { return fmt.Errorf(format, a...) }
+
+// e2eProbe runs the case once without any plan and returns the messages of both directions
+// (type, direction, offset, length) as tapped.
+func e2eProbe(c *e2eCase, work string, tr *vTrace) ([]*e2eMsg, error) {
+	cc := *c
+	cc.Plan = e2ePlan{}
+	var msgs []*e2eMsg
+	e2eProbeSink = func(w *e2eWire) { msgs = append([]*e2eMsg(nil), w.msgs...) }
+	defer func() { e2eProbeSink = nil }()
+	res, _, err := e2eExec(&cc, work, tr, false)
+	os.RemoveAll(work)
+	if err != nil {
+		return nil, err
+	}
+	if !res.ClientOK || !res.ServerOK {
+		return nil, fmt.Errorf("probe run failed: client=%q server=%q", res.ClientErr, res.ServerErr)
+	}
+	return msgs, nil
+}
+
+var e2eProbeSink func(w *e2eWire)
